@@ -491,6 +491,29 @@ func (sc *SpecCtx) call(e *SExpr) (*Val, error) {
 		}
 		c := g.comp(elemComp(sl.Elem()), "(Array Int "+g.st.sortOf(sl.Elem())+")")
 		return &Val{T: sel(g.heapTerm(sc.cur, c.Name), sx("sl-base", x.T))}, nil
+	case "heapof":
+		// heapof(s, "Field"): the heap component (an SMT array from element
+		// references to values) that holds field Field of the elements of a slice
+		// of structs; elements are addressed as elemref(base(s), ix(off(s), k))
+		if len(e.Args) != 2 {
+			return nil, fmt.Errorf("heapof(slice, \"Field\")")
+		}
+		x, err := argv(0)
+		if err != nil {
+			return nil, err
+		}
+		sl, ok := x.Ty.Underlying().(*types.Slice)
+		if !ok || !isStruct(sl.Elem()) {
+			return nil, fmt.Errorf("heapof() needs a slice of structs")
+		}
+		u := sl.Elem().Underlying().(*types.Struct)
+		idx, ft, path := findField(u, selName(e.Args[1]))
+		if idx < 0 || len(path) > 0 || isStruct(ft) || isArray(ft) {
+			return nil, fmt.Errorf("heapof: no scalar field %s", selName(e.Args[1]))
+		}
+		loc, _, _ := g.fieldOf("0", sl.Elem(), idx)
+		g.scalarComp(loc.Comp, loc.Ty)
+		return &Val{T: g.heapTerm(sc.cur, loc.Comp)}, nil
 	case "has":
 		m, err := argv(0)
 		if err != nil {
@@ -774,6 +797,29 @@ func (sc *SpecCtx) lvalTargets(e *SExpr) ([]frameTarget, error) {
 	}
 	switch e.Kind {
 	case SField:
+		if e.X.Kind == SSlice || e.X.Kind == SIndex {
+			// s[*].F / s[i].F on a slice of structs
+			sv, err := sc.eval(e.X.X)
+			if err == nil {
+				if sl, ok := sv.Ty.Underlying().(*types.Slice); ok && isStruct(sl.Elem()) {
+					u := sl.Elem().Underlying().(*types.Struct)
+					idx, ft, path := findField(u, e.Name)
+					if idx < 0 || len(path) > 0 || isStruct(ft) || isArray(ft) {
+						return nil, fmt.Errorf("modifies: no scalar field %s in the elements", e.Name)
+					}
+					loc, _, _ := g.fieldOf("0", sl.Elem(), idx)
+					g.scalarComp(loc.Comp, loc.Ty)
+					if e.X.Kind == SSlice {
+						return []frameTarget{{Comp: loc.Comp, ElemBase: sx("sl-base", sv.T)}}, nil
+					}
+					iv, err := sc.eval(e.X.Y)
+					if err != nil {
+						return nil, err
+					}
+					return []frameTarget{{Comp: loc.Comp, Ref: sx("elemref", sx("sl-base", sv.T), sx("ix", sx("sl-off", sv.T), iv.T))}}, nil
+				}
+			}
+		}
 		x, err := sc.eval(e.X)
 		if err != nil {
 			return nil, err
